@@ -25,20 +25,26 @@ def families(tier):
         'diamond': (['A', 'B', 'C'], [('A', 'B'), ('A', 'C'), ('B', 'C')]),
     }
     for tname, (bn, fw) in topo.items():
-        for pshape, yshape, actor in itertools.product(['pause', 'c_aw_same', 'c_aw_other', 'c_late_other', 'c_ff_other'], ['ret', 'pause'], ['none', 'y2_A', 'y2_last', 'pause_y2_last']):
+        for pshape, yshape, actor in itertools.product(['pause', 'c_aw_same', 'c_aw_other', 'c_late_other', 'c_ff_other', 'sib_ff_same_aw', 'sib_ff_other_aw'], ['ret', 'pause'], ['none', 'y2_A', 'y2_last', 'pause_y2_last']):
             if len(bn) == 1 and 'other' in pshape:
+                continue
+            if pshape.startswith('sib_') and tname in ('chain3', 'diamond') and not deep:
                 continue
             last = bn[-1]
             other = bn[1] if len(bn) > 1 else 'A'
             hp = {'pause': [('pause',)], 'c_aw_same': [('disp', 'A', 'C', 'await')], 'c_aw_other': [('disp', other, 'C', 'await')],
-                  'c_late_other': [('disp', other, 'C', 'late'), ('pause',), ('await', 'C')], 'c_ff_other': [('disp', other, 'C', 'ff'), ('pause',)]}[pshape]
+                  'c_late_other': [('disp', other, 'C', 'late'), ('pause',), ('await', 'C')], 'c_ff_other': [('disp', other, 'C', 'ff'), ('pause',)],
+                  # two children, only the second is awaited: the un-awaited sibling must keep its FIFO turn behind Y1 / Y3
+                  'sib_ff_same_aw': [('disp', 'A', 'C', 'ff'), ('disp', 'A', 'G', 'await')], 'sib_ff_other_aw': [('disp', other, 'C', 'ff'), ('disp', 'A', 'G', 'await')]}[pshape]
             hs = [dict(bus='A', pat='P', name='hp', prog=hp)]
             for b in bn:
                 hs.append(dict(bus=b, pat='*', name='probe' + b, prog=[('ret', 0)], kind='sync'))
                 hs.append(dict(bus=b, pat='Y', name='hy' + b, prog=[('pause',)] if yshape == 'pause' else [('ret', 1)]))
-            cbus = 'A' if pshape == 'c_aw_same' else other
+            cbus = 'A' if pshape in ('c_aw_same', 'sib_ff_same_aw') else other
             if pshape != 'pause':
                 hs.append(dict(bus=cbus, pat='C', name='hc', prog=[('pause',)]))
+            if pshape.startswith('sib_'):
+                hs.append(dict(bus='A', pat='G', name='hg', prog=[('pause',)]))
             main = [('disp', 'A', 'P', 'ff'), ('disp', 'A', 'Y1', 'ff'), ('disp', last, 'Y3', 'ff')]
             if deep:
                 main.append(('disp', 'A', 'Y4', 'ff'))
